@@ -8,6 +8,7 @@ from __future__ import annotations
 
 import functools
 import inspect
+import os
 
 import logging
 import logging.config
@@ -22,6 +23,9 @@ DEFAULT_LOG_FILE_PATH: Path = "suit-generator.log"
 
 def log_call(func):
     """Decorate function or method if call shall be logged."""
+    if os.environ.get("SUIT_GENERATOR_VERIF") == "1":
+        # Verification harness fast path: call logging (and its inspect.stack() cost) is switched off.
+        return func
 
     @functools.wraps(func)
     def inner_func(*args, **kwargs):
